@@ -195,6 +195,10 @@ fn privacy_programs() -> Vec<(String, bool, String)> {
     out.push(("mod top {\n    mod a {\n        mod deep {\n            fn hidden() { 7.0 }\n        }\n    }\n    use a::deep::*\n    mod b {\n        pub fn g() { hidden() }\n    }\n}\nfn dsp() { top::b::g() }\n".to_string(), true, "wildcard import with a relative base, private member of a cousin module".into()));
     out.push(("mod math {\n    pub fn double(x) { x * 2.0 }\n    fn hidden(x) { x * 100.0 }\n}\nuse math::*\nfn dsp() { hidden(21.0) }\n".to_string(), true, "absolute wildcard import, private member".into()));
     out.push(("mod math {\n    pub fn double(x) { x * 2.0 }\n    fn hidden(x) { x * 100.0 }\n}\nuse math::*\nfn dsp() { double(21.0) }\n".to_string(), false, "absolute wildcard import, public member (control)".into()));
+    // the same path written twice under different module contexts: a legal use from inside must not make the use from outside legal
+    out.push(("mod vault {\n    fn secret() { 42.0 }\n    pub fn open() { vault::secret() }\n}\nfn dsp() { vault::open() + vault::secret() }\n".to_string(), true, "private member named by its full path inside its module first, then from the root".into()));
+    out.push(("mod outer {\n    fn hidden() { 7.0 }\n    mod child {\n        pub fn peek() { outer::hidden() }\n    }\n    pub fn get() { outer::child::peek() }\n}\nmod sibling {\n    pub fn steal() { outer::hidden() }\n}\nfn dsp() { outer::get() + sibling::steal() }\n".to_string(), true, "private member used by a child module first, then by a sibling module".into()));
+    out.push(("mod vault {\n    fn secret() { 42.0 }\n    pub fn open() { vault::secret() + vault::secret() }\n}\nfn dsp() { vault::open() }\n".to_string(), false, "private member named twice inside its module (control)".into()));
     // control: the owner itself and a child module may use the private member
     out.push(("mod osc { fn secret(x) { x * 2.0 } pub fn open(x) { osc::secret(x) } mod detail { pub fn twice(x) { osc::secret(x) } } pub fn t(x) { osc::detail::twice(x) } }\nfn dsp() { osc::open(1.0) + osc::t(1.0) }\n".to_string(), false, "own hierarchy".into()));
     out
@@ -236,6 +240,8 @@ fn shadow_programs() -> Vec<(String, f64, String)> {
             out.push((src, 7.0, format!("let-bound local `{name}` vs a sibling function of the module; {idesc}")));
         }
     }
+    // the same relative path written in two modules denotes two definitions
+    out.push(("mod a {\n    mod inner {\n        pub fn g() { 1.0 }\n    }\n    pub fn ga() { inner::g() }\n}\nmod b {\n    mod inner {\n        pub fn g() { 2.0 }\n    }\n    pub fn gb() { inner::g() }\n}\nfn dsp() { a::ga() + b::gb() * 3.0 }\n".to_string(), 7.0, "the relative path inner::g written in module a and in module b".into()));
     // a float local (no function value involved)
     out.push(("mod fx {\n    pub fn gain(v) { v * 100.0 }\n}\nuse fx::*\nfn dsp() {\n    let gain = 6.5\n    let y = (|gain| gain * 2.0)(0.25)\n    gain + y\n}\n".to_string(), 7.0, "float local vs wildcard import; a lambda parameter re-binds the name".into()));
     out
